@@ -38,4 +38,40 @@ theorem instrsFromJson_toJson : ∀ p : Program, (∀ i ∈ p, i.op.InRange) →
     simp [mapJ, instrFromJson_toJson i (h i (List.mem_cons_self ..)),
       instrsFromJson_toJson t (fun j hj => h j (List.mem_cons_of_mem _ hj))]
 
+/-- The most compact object the reader accepts for an instruction: the fields with a serde
+default (`inputs`, `outputs`) are left out when they are empty. -/
+def instrToJsonMin (i : Instr) : Json :=
+  .obj ([("op", opToJson i.op)] ++ (if i.ins = [] then [] else [("inputs", namesToJson i.ins)])
+    ++ (if i.outs = [] then [] else [("outputs", namesToJson i.outs)]))
+
+/-- The positional form (`visit_seq` of the derived `Deserialize`): trailing fields with a
+default may be missing. -/
+def instrToJsonSeq (i : Instr) : Json :=
+  .arr ([opToJson i.op] ++ (if i.outs = [] then (if i.ins = [] then [] else [namesToJson i.ins])
+    else [namesToJson i.ins, namesToJson i.outs]))
+
+theorem instrFromJson_min (i : Instr) (hr : i.op.InRange) : instrFromJson (instrToJsonMin i) = .ok i := by
+  obtain ⟨op, ins, outs⟩ := i
+  by_cases h1 : ins = [] <;> by_cases h2 : outs = [] <;>
+    simp [instrFromJson, instrToJsonMin, instrFields, opFromJson_toJson op hr, namesFromJson_toJson, h1, h2]
+
+theorem instrFromJson_seq (i : Instr) (hr : i.op.InRange) : instrFromJson (instrToJsonSeq i) = .ok i := by
+  obtain ⟨op, ins, outs⟩ := i
+  by_cases h1 : ins = [] <;> by_cases h2 : outs = [] <;>
+    simp [instrFromJson, instrToJsonSeq, opFromJson_toJson op hr, namesFromJson_toJson, h1, h2]
+
+theorem instrsFromJson_min : ∀ p : Program, (∀ i ∈ p, i.op.InRange) →
+    mapJ instrFromJson (p.map instrToJsonMin) = .ok p
+  | [], _ => rfl
+  | i :: t, h => by
+    simp [mapJ, instrFromJson_min i (h i (List.mem_cons_self ..)),
+      instrsFromJson_min t (fun j hj => h j (List.mem_cons_of_mem _ hj))]
+
+theorem instrsFromJson_seq : ∀ p : Program, (∀ i ∈ p, i.op.InRange) →
+    mapJ instrFromJson (p.map instrToJsonSeq) = .ok p
+  | [], _ => rfl
+  | i :: t, h => by
+    simp [mapJ, instrFromJson_seq i (h i (List.mem_cons_self ..)),
+      instrsFromJson_seq t (fun j hj => h j (List.mem_cons_of_mem _ hj))]
+
 end MidnightZK.C18
